@@ -52,6 +52,14 @@ fn main() {
         "c15-box" => c15::box_check(args[2].parse().unwrap(), args[3].parse().unwrap()),
         // c15-one <hnf|snf> m n entries...
         "c15-one" => c15::one(&args[2], &args[3..]),
+        // c15-cosets <bound> <threads> [<maxdet>]
+        "c15-cosets" => c15::cosets_check(args[2].parse().unwrap(), args[3].parse().unwrap(), args.get(4).map(|x| x.parse().unwrap()).unwrap_or(64)),
+        // c15-coset-one a00 a01 ... a22
+        "c15-coset-one" => {
+            let v: Vec<i32> = args[2..11].iter().map(|x| x.parse().unwrap()).collect();
+            let a = nalgebra::Matrix3::new(v[0], v[1], v[2], v[3], v[4], v[5], v[6], v[7], v[8]);
+            println!("{}", c15::coset_failure(&a).unwrap_or_else(|| "distinct".into()));
+        }
         // tables-gen <out>  |  malformed-gen <count> <out>
         "tables-gen" => tables::gen_tables(&args[2]),
         "malformed-gen" => tables::gen_malformed(seed, args[2].parse().unwrap(), &args[3]),
